@@ -32,7 +32,7 @@ type SrcSpec struct {
 	Ctor string `json:"ctor,omitempty"` // "unsafe" (default) | "safe" | "default" | "eventually"
 	// CtorAPI: which of the equivalent constructor functions builds the source: 0 the ...WithContext one,
 	// 1 the plain one (subscribe function without a context: the source emits with context.Background()),
-	// 2 NewObservableWithConcurrencyMode
+	// 2 NewObservableWithConcurrencyMode, 3 not a library constructor at all (foreignObservable)
 	CtorAPI int `json:"ctor_api,omitempty"`
 	// TermFirst: with several producers only producer 0 issues the script's terminal notification; the
 	// others emit the values only (so the one terminal call can collide with somebody else's Next)
@@ -724,6 +724,13 @@ func (s *Src) Obs() ro.Observable[int] {
 		case "sync":
 			s.play(dest, ctx, sub, 0, script, false, false)
 			s.Done++
+		case "syncpoll":
+			// a synchronous producer that emits until its observer reports closed (the only way a producer
+			// that is still inside its subscribe function can learn that nobody listens any more)
+			for i := 0; i < 300 && !dest.IsClosed(); i++ {
+				s.emit(dest, ctx, 0, Step{K: "N", V: i})
+			}
+			s.Done++
 		case "endless":
 			gap := 1
 			if len(script) > 0 && script[0].Gap > 0 {
@@ -786,6 +793,12 @@ func (s *Src) Obs() ro.Observable[int] {
 		}
 	}
 	plain := func(dest ro.Observer[int]) ro.Teardown { return fn(context.Background(), dest) }
+	if s.Spec.CtorAPI == 3 {
+		// an implementation of the public Observable interface that is not the library's: it hands the
+		// observer to the producer as it is and returns a subscription of its own (nothing is attached to
+		// the observer); whoever subscribed it has to keep and use that subscription
+		return foreignObservable{fn: fn}
+	}
 	switch s.Spec.CtorAPI {
 	case 1:
 		switch s.Spec.Ctor {
@@ -886,4 +899,19 @@ func (e *Env) CheckHeld(prop string) {
 			return
 		}
 	}
+}
+
+// foreignObservable implements ro.Observable without any of the library's constructors.
+type foreignObservable struct {
+	fn func(ctx context.Context, dest ro.Observer[int]) ro.Teardown
+}
+
+func (f foreignObservable) Subscribe(o ro.Observer[int]) ro.Subscription {
+	return f.SubscribeWithContext(context.Background(), o)
+}
+
+func (f foreignObservable) SubscribeWithContext(ctx context.Context, o ro.Observer[int]) ro.Subscription {
+	sub := ro.NewSubscription(nil)
+	sub.Add(f.fn(ctx, o))
+	return sub
 }
